@@ -138,8 +138,8 @@ def random_pair(rng, tier):
 def panel_pair(rng, tier):
     fl = gen.flags(rng, style=str(rng.choice(['ss', 'clamped', 'binary', 'mixed'])))
     d = gen.panel_desc(rng, model=str(rng.choice(['plate', 'cpanel', 'plate_w', 'kpanel'])), mmax=7, sub=False, place=False, fl=fl)
-    d['m'] = max(d['m'], 4)
-    d['n'] = max(d['n'], 4)
+    d['m'] = max(d['m'], 6)      # clamped edges switch the first four functions off: fewer terms leave (almost) no free amplitude
+    d['n'] = max(d['n'], 6)
     p = gen.build_panel(d)
     load = [float(x) for x in rng.choice([-1., 0., 1., -0.5], 3)]
     if load[0] >= 0 and load[1] >= 0:
